@@ -448,14 +448,16 @@ def known_match(known, pid, harness, failed_checks):
     return matched
 
 
-def write_evidence(pid, tier, seed, cov, assumptions, wall, violations):
+def write_evidence(pid, tier, seed, cov, assumptions, wall, violations, partial=False):
     ev = {
         "property_id": pid, "tier": tier, "seed": seed, "level": "model_checking",
         "coverage": cov, "assumptions": assumptions, "wall_s": round(wall, 2),
         "violations": violations,
     }
     os.makedirs(os.path.join(VERIF, "evidence"), exist_ok=True)
-    path = os.path.join(VERIF, "evidence", pid + ".json")
+    # a run restricted with --only (debugging, seed testing) must not replace the evidence of
+    # the registered check: it goes to <id>.partial.json (git-ignored)
+    path = os.path.join(VERIF, "evidence", pid + (".partial.json" if partial else ".json"))
     tmp = path + ".tmp"
     with open(tmp, "w") as fh:
         json.dump(ev, fh, indent=1, sort_keys=False)
@@ -651,7 +653,7 @@ def check(pid, tier, only=None, jobs=None):
     }
     wall = time.time() - t0
     write_evidence(pid, tier, seed, cov, meta["assumptions"] + ["stubs: " + s for s in meta["stubs"]],
-                   wall, len(violations))
+                   wall, len(violations), partial=bool(only))
 
     for h, k in known_hits:
         log(f"KNOWN-FINDING: property={pid} {k.get('what', '')} [harness {h}]")
